@@ -35,6 +35,8 @@ class Coder:
 
     def entry(self, ch, n):
         lines = ['E(%r, time)' % n] + _send_code(ch['states'][n]['sends_entry'])
+        if ch['states'][n].get('active_call'):
+            lines.append('active(%r)' % ch['states'][n]['active_call'])
         if self.bump_v:
             lines.append('v = v + 1')
         return '\n'.join(lines)
@@ -46,12 +48,18 @@ class Coder:
         return '\n'.join(lines)
 
     def action(self, ch, t):
+        if t.get('action_text'):
+            return 'H(%r)' % t['action_text']        # exactly the text of another transition's guard
         lines = ['A(%r, event, time)' % t['id']] + _send_code(t['sends'])
+        if t.get('active_call'):
+            lines.append('active(%r)' % t['active_call'])
         if self.bump_v:
             lines.append('v = v + 1')
         return '\n'.join(lines)
 
     def guard(self, ch, t):
+        if t.get('gkey'):
+            return 'H(%r)' % t['gkey']
         if t.get('tguard') and t['tguard'].get('plain'):
             tg = t['tguard']
             parts = []
